@@ -771,6 +771,9 @@ func runC03(r *core.Run) {
 		}
 	}
 	if r.Variant == "" {
+		// the whole workload once more in the GOARCH=386 build of this monitor (see ./check)
+		r.RunVariantChild("arch386@16", 30*time.Minute, false)
+		r.Obs("arch386_child", "run")
 		for _, v := range append([]string{"xyzfirst", "xyzfirst+rev@2", "rev@1", "warm@2", "decfirst+encfirst@1", "genfirst@2", "genfirst+xyzfirst+rev@1", "rot1+genfirst@1", "rot2+genfirst+xyzfirst@3", "burst+cross@8", "burst+cross+xyzfirst@16", "burst+cross+stagger@4", "burst+cross+rev@16", "burst+cross+xyzfirst+rev@8", "burst+cross@2", "burst+cross+fine10@16", "burst+cross+fine60@8", "burst+cross+fine250+xyzfirst@16", "burst+cross+fine30+rev@8", "burst+xyzfirst@4", "burst+xyzfirst+stagger@8",
 			"atinit+burst@1", "atinit+burst@16", "atinit+burst+rev@2", "atinit+burst@4",
 			"burst+mixedD@16", "burst+mixedD+fine1000@16", "burst+mixedT+fine10000@16", "burst+mixedD+fine100000@16", "burst+mixedT+fine400000@8", "burst+mixedE+cross+fine30000@16", "burst+mixedR+rev+fine100000@4", "burst+mixedD+fine200000@2", "burst+mixedT+xyzfirst+fine50000@16", "burst+mixedE+fine3000@16", "burst+mixedR+fine20000@16", "burst+mixedT+fine100@16"}, burstVariants...) {
